@@ -40,14 +40,14 @@ class Cases(object):
         self.cases = []      # dict(line, script, url, fam, [targets])
         self.seen = set()
 
-    def add(self, line, script, fam, url=None, responder=None, targets=None, tail=None):
+    def add(self, line, script, fam, url=None, responder=None, targets=None, tail=None, spec=None):
         key = json.dumps([line, script, url], sort_keys=True) if responder is None else None
         if key is not None:
             if key in self.seen:
                 return
             self.seen.add(key)
         self.cases.append({'line': line, 'script': script, 'url': url, 'fam': fam, 'responder': responder,
-                           'targets': targets, 'tail': tail})
+                           'targets': targets, 'tail': tail, 'spec': spec})
 
 
 def answer_entries(codes):
@@ -195,15 +195,17 @@ def gen_restart(cs, quick):
     redl = [['unit']] + [['fault', c, 'F%d' % c] for c in red]
     for a1 in single:
         for a2 in single:
-            cs.add('restart a', [up_ok(), up_ok(), a1, up_ok(), a2], 'restart')
+            cs.add('restart a', [up_ok(), up_ok(), a1, up_ok(), a2], 'restart', spec=('restart', ['a'], [a1], [a2]))
     for a1 in redl:
         for a2 in redl:
             for b1 in redl[:5]:
                 for b2 in redl[:5]:
-                    cs.add('restart a b', [up_ok(), up_ok(), a1, a2, up_ok(), b1, b2], 'restart')
+                    xs, ys = [at(a1, 1), at(a2, 2)], [at(b1, 3), at(b2, 4)]
+                    cs.add('restart a b', [up_ok(), up_ok()] + xs + [up_ok()] + ys, 'restart',
+                           spec=('restart', ['a', 'b'], xs, ys))
     for g1 in group_answers(codes, 'g', True):
         for g2 in group_answers(red, 'g', True)[::3]:
-            cs.add('restart g:*', [up_ok(), up_ok(), g1, up_ok(), g2], 'restart')
+            cs.add('restart g:*', [up_ok(), up_ok(), g1, up_ok(), g2], 'restart', spec=('restart', ['g:*'], [g1], [g2]))
     cs.add('restart', [up_ok()], 'restart')
     cs.add('restart all', [up_ok(), up_ok(), ['results', [res('p', 'g', 80)]], up_ok(), ['results', [res('p', 'g', 80)]]], 'restart')
     # upcheck of the inner do_stop / do_start failing
@@ -464,7 +466,8 @@ class OkResponder(object):
                 return ['infos', INFO_SETS[3]]
             return ['infos', rng.choice(INFO_SETS)]
         if method == 'getProcessInfo':
-            return ['info', ['a', 'a', 20, 'RUNNING', 'pid 7', 7 if rng is None else rng.choice([0, 7, 123456])]]
+            # never RUNNING: `fg` would become interactive (raw_input) on a running process
+            return ['info', ['a', 'a', 40, 'STOPPING', 'pid 7', 7 if rng is None else rng.choice([0, 7, 123456])]]
         if method == 'getAllConfigInfo':
             return ['cinfos', [['p', 'g', True, False, 999, 1]]]
         if method == 'reloadConfig':
@@ -508,6 +511,8 @@ def run_cases(chk, cases, wd):
     mon_terms, mon_metas = [], []
     stat_terms, stat_metas = [], []
     tail_terms, tail_metas = [], []
+    rst_terms, rst_metas = [], []
+    stl_terms, stl_metas = [], []
     distinct = set()
     F = faults()
     for i, c in enumerate(cases):
@@ -534,6 +539,8 @@ def run_cases(chk, cases, wd):
         # pass silently with status 0
         judge_silent(chk, c, r, served, lines, meta, F)
         judge_update(chk, c, r, served, lines, meta, F)
+        judge_simple(chk, c, r, served, lines, meta, F)
+        chk._c20_known_names = getattr(chk, '_c20_known_names', 0) + judge_names(chk, c, r, served, lines, meta, F)
         terms.append(term)
         metas.append(meta)
         distinct.add((c['line'].split()[0] if c['line'].split() else '', tuple(l[0] for l in lines), r['status'],
@@ -542,6 +549,10 @@ def run_cases(chk, cases, wd):
             stat_terms.append('(mkstat %s %s %s)' % (H.clist(H.cs(w) for w in c['line'].split()[1:]),
                                                       H.clist(H.coq_pinfo(x) for x in served[1][1]), H.cz(r['status'])))
             stat_metas.append(meta)
+            stl_terms.append('(mkstatl %s %s %s)' % (H.clist(H.cs(w) for w in c['line'].split()[1:]),
+                                                      H.clist(H.coq_pinfo(x) for x in served[1][1]),
+                                                      H.clist(H.coq_line(l) for l in lines)))
+            stl_metas.append(meta)
         if c.get('tail') is not None and enc is None:
             kind, name, se, nbytes, ans = c['tail']
             what = 'TailMain' if kind == 'main' else '(TailProc %s %s)' % (H.cs(name), H.cb(se))
@@ -551,9 +562,18 @@ def run_cases(chk, cases, wd):
             tail_metas.append(meta)
         if c['targets'] is not None:
             act, names, answers = c['targets']
-            mon_terms.append(monitor_term(H, act, names, answers, lines, r['status']))
+            mon_terms.append(monitor_term(H, act, names, answers, lines, r['status'],
+                                          'HUP' if act == 'signal' else '', r['calls']))
             mon_metas.append(meta)
-    mons = {'targets': (mon_terms, mon_metas), 'status': (stat_terms, stat_metas), 'tail': (tail_terms, tail_metas)}
+        if c.get('spec') is not None and c['spec'][0] == 'restart':
+            _k, names, xs, ys = c['spec']
+            rst_terms.append('(mkrestart %s %s %s %s %s %s)' % (
+                H.clist(H.cs(n) for n in names), H.clist(coq_answer(H, a) for a in xs),
+                H.clist(coq_answer(H, a) for a in ys), H.clist(H.coq_line(l) for l in lines), H.cz(r['status']),
+                H.clist(H.coq_call(x) for x in r['calls'])))
+            rst_metas.append(meta)
+    mons = {'targets': (mon_terms, mon_metas), 'status': (stat_terms, stat_metas), 'tail': (tail_terms, tail_metas),
+            'restart': (rst_terms, rst_metas), 'status_lines': (stl_terms, stl_metas)}
     return terms, metas, mons, distinct
 
 
@@ -563,8 +583,12 @@ def direct_failures(chk):
 
 def _direct(chk, obj):
     chk._c20_direct = getattr(chk, '_c20_direct', 0) + 1
-    if chk._c20_direct <= 5:
-        chk.violation(obj)
+    seen = chk.__dict__.setdefault('_c20_direct_seen', set())
+    key = (obj.get('kind'), obj.get('line'))
+    if key in seen or len(seen) >= 8:
+        return
+    seen.add(key)
+    chk.violation(obj)
 
 
 def judge_update(chk, c, r, served, lines, meta, F):
@@ -611,6 +635,115 @@ def judge_update(chk, c, r, served, lines, meta, F):
                           'specified ones', expected_lines=exp_err + exp, expected_status=exp_status))
 
 
+MALFORMED = ['start', 'stop', 'restart', 'signal', 'signal HUP', 'clear', 'tail', 'tail a b c d', 'tail -5', 'tail a b',
+             'tail -x a', 'tail -5x a', 'tail - a', 'maintail x', 'maintail a b', 'maintail -x', 'shutdown now', 'reload x',
+             'avail x', 'reread x', 'version x', 'foo', 'starts a', '!ls', ':', 'open ftp://x', 'open x']
+
+
+def judge_names(chk, c, r, served, lines, meta, F):
+    """add / remove / pid <names>: one line per name worded after the answer for THAT name, exit status"""
+    words = c['line'].split()
+    if c['fam'] != 'names' or not words or words[0] not in ('add', 'remove', 'pid') or len(words) < 2:
+        return 0
+    act, names = words[0], words[1:]
+    if act == 'pid' and 'all' in names:
+        return 0
+    used = served[:len(r['served'])]
+    if act == 'pid':
+        if not used or used[0] != up_ok():
+            return 0
+        used = used[1:]
+    exp, status, aborted = [], 0, False
+    for n, e in zip(names, used):
+        if e[0] in ('sock', 'proto'):
+            return 0
+        if act == 'add':
+            if e[0] != 'fault':
+                exp.append('%s: added process group' % n)
+            elif e[1] == F['SHUTDOWN_STATE']:
+                exp.append('ERROR: shutting down'); status = 1
+            elif e[1] == F['ALREADY_ADDED']:
+                exp.append('ERROR: process group already active')
+            elif e[1] == F['BAD_NAME']:
+                exp.append('ERROR: no such process/group: %s' % n); status = 1
+            else:
+                aborted = True
+        elif act == 'remove':
+            if e[0] != 'fault':
+                exp.append('%s: removed process group' % n)
+            elif e[1] == F['STILL_RUNNING']:
+                exp.append('ERROR: process/group still running: %s' % n); status = 1
+            elif e[1] == F['BAD_NAME']:
+                exp.append('ERROR: no such process/group: %s' % n); status = 1
+            else:
+                aborted = True
+        else:
+            if e[0] == 'info':
+                exp.append(str(e[1][5]))
+                if e[1][5] == 0:
+                    status = 7
+            elif e[0] == 'fault' and e[1] == F['BAD_NAME']:
+                exp.append('No such process %s' % n); status = 1
+            else:
+                aborted = True
+        if aborted:
+            break
+    texts = [l[1] for l in lines if l[0] == 'text']
+    if aborted:
+        # known finding C20-names-fault-aborts: the fault ends the command in the exception net
+        if r['status'] == 0 or not any(l[0] == 'err' for l in lines) or texts != exp:
+            _direct(chk, dict(meta, kind='%s: a fault without wording for one name: expected the lines so far, an error '
+                              'line and a non-zero status' % act, expected_lines=exp))
+            return 0
+        return 1 if len(exp) + 1 < len(names) else 0
+    if texts != exp or len(texts) != len(lines) or r['status'] != status:
+        _direct(chk, dict(meta, kind='%s: not one line per name worded after the server\'s answer for that name, or '
+                          'wrong exit status' % act, expected_lines=exp, expected_status=status))
+    return 0
+
+
+def judge_simple(chk, c, r, served, lines, meta, F):
+    """version / shutdown / reload / reread / avail on a successful answer, and malformed command lines"""
+    line = c['line'].strip()
+    used = served[:len(r['served'])]
+    texts = [l[1] for l in lines if l[0] == 'text']
+    exp = None
+    if c['fam'] == 'malformed':
+        if r['status'] == 0 or not any(l[0] in ('err',) or (l[0] == 'text' and ('rror' in l[1] or 'ERROR' in l[1] or
+                                                                           'Unknown syntax' in l[1])) for l in lines):
+            _direct(chk, dict(meta, kind='malformed arguments / unknown action accepted: exit status 0 or no error line'))
+        return
+    if c['fam'] != 'single':
+        return
+    if line == 'version' and len(used) == 2 and used[0] == up_ok() and used[1][0] == 'str':
+        exp = [used[1][1]]
+    elif line == 'shutdown' and used == [['unit']]:
+        exp = ['Shut down']
+    elif line == 'reload' and used == [['unit']]:
+        exp = ['Restarted supervisord']
+    elif line == 'reread' and len(used) == 1 and used[0][0] == 'reload':
+        d = {}
+        for names, what in ((used[0][1], 'available'), (used[0][2], 'changed'), (used[0][3], 'disappeared')):
+            for n in names:
+                d[n] = what
+        exp = ['%s: %s' % (n, d[n]) for n in sorted(d)] or ['No config updates to processes']
+    elif line == 'avail' and len(used) == 1 and used[0][0] == 'cinfos':
+        ok = len(texts) == len(used[0][1]) == len(lines) and r['status'] == 0
+        for x, tline in zip(used[0][1], texts):
+            ns = x[0] if x[0] == x[1] else '%s:%s' % (x[1], x[0])
+            f = tline.split()
+            ok = ok and tline.startswith(ns + ' ') and tline.endswith(' %d:%d' % (x[4], x[5])) and \
+                ((' in use ' in tline) if x[2] else (' avail ' in tline)) and \
+                ((' auto ' in tline) if x[3] else (' manual ' in tline)) and len(f) >= 4
+        if not ok:
+            _direct(chk, dict(meta, kind='avail: not one line per configured process carrying its namespec, '
+                              'in use/avail, auto/manual and priorities'))
+        return
+    if exp is not None and (texts != exp or len(texts) != len(lines) or r['status'] != 0):
+        _direct(chk, dict(meta, kind='%s: a successful answer is not reported as specified (lines / exit status 0)'
+                          % line.split()[0], expected_lines=exp))
+
+
 def judge_silent(chk, c, r, served, lines, meta, F):
     """never-silent and no-spurious-failure, judged directly on the implementation's output"""
     import re
@@ -649,7 +782,18 @@ def judge_silent(chk, c, r, served, lines, meta, F):
                           bad_answers=bad, has_error_line=has_err))
 
 
-def monitor_term(H, act, names, answers, lines, status):
+def coq_answer(H, a):
+    k = a[0]
+    if k == 'unit':
+        return 'AnsOk'
+    if k == 'fault':
+        return 'AnsFault %s %s' % (H.cz(a[1]), H.cs(a[2]))
+    if k == 'results':
+        return 'AnsResults %s' % H.clist(H.coq_presult(x) for x in a[1])
+    raise ValueError(a)
+
+
+def monitor_term(H, act, names, answers, lines, status, sig, calls):
     def ans(a):
         k = a[0]
         if k == 'unit':
@@ -659,10 +803,92 @@ def monitor_term(H, act, names, answers, lines, status):
         if k == 'results':
             return 'AnsResults %s' % H.clist(H.coq_presult(x) for x in a[1])
         raise ValueError(a)
-    return '(mkmon %s %s %s %s %s)' % (
+    return '(mkmon %s %s %s %s %s %s %s)' % (
         {'start': 'Start', 'stop': 'Stop', 'signal': 'Signal', 'clear': 'Clear'}[act],
         H.clist(H.cs(n) for n in names), H.clist(ans(a) for a in answers),
-        H.clist(H.coq_line(l) for l in lines), H.cz(status))
+        H.clist(H.coq_line(l) for l in lines), H.cz(status), H.cs(sig), H.clist(H.coq_call(x) for x in calls))
+
+
+def judge_main(chk):
+    """One-shot mode: `supervisorctl <action> <args>` = main(): prints what onecmd prints and
+    calls sys.exit(Controller.exitstatus).  The real main() (real option parsing) and onecmd are run on
+    the same words and script and must agree; the exit code must be an int, 0 only if onecmd's is 0."""
+    import c20_proxy as H
+    F = faults()
+    up = up_ok()
+    info = ['infos', INFO_SETS[3]]
+    pairs = [
+        ('start a b', [up, ['unit'], ['unit']]), ('start a b', [up, ['fault', F['ALREADY_STARTED'], 'x'], ['unit']]),
+        ('start a b', [up, ['fault', F['SPAWN_ERROR'], 'x'], ['unit']]), ('start a b', [up, ['fault', 99, 'x'], ['unit']]),
+        ('start g:* b', [up, ['fault', F['SHUTDOWN_STATE'], 'S'], ['unit']]), ('start', [up]),
+        ('stop a', [up, ['fault', F['NOT_RUNNING'], 'x']]), ('stop all', [up, ['results', [res('p', 'g', F['FAILED'])]]]),
+        ('restart a', [up, up, ['unit'], up, ['fault', F['ABNORMAL_TERMINATION'], 'x']]),
+        ('signal HUP a', [up, ['fault', F['BAD_SIGNAL'], 'x']]), ('signal', [up]),
+        ('clear a b', [up, ['unit'], ['fault', F['FAILED'], 'x']]),
+        ('status', [up, info]), ('status zz', [up, info]), ('status a', [up, info]), ('status g:q', [up, info]),
+        ('status', [['sock', 111, 'Connection refused']]), ('status', [['sock', 2, 'nf']]), ('status', [['str', '1.0']]),
+        ('status', [['proto', 401, 'Unauthorized']]), ('status', [['sock', 104, 'reset']]),
+        ('pid', [up, ['int', 77]]), ('pid a', [up, ['info', ['a', 'a', 0, 'STOPPED', '', 0]]]),
+        ('pid all', [up, info]), ('pid a', [up, ['fault', F['BAD_NAME'], 'x']]),
+        ('add a', [['fault', F['ALREADY_ADDED'], 'x']]), ('add a', [['fault', F['BAD_NAME'], 'x']]),
+        ('remove a', [['fault', F['STILL_RUNNING'], 'x']]), ('update', [['reload', [], [], []]]),
+        ('update zz', [['reload', ['n'], [], []], info, ['unit']]), ('reread', [['reload', ['a'], ['b'], []]]),
+        ('reread', [['fault', F['CANT_REREAD'], 'CANT_REREAD: bad file']]), ('avail', [['cinfos', []]]),
+        ('shutdown', [['fault', F['SHUTDOWN_STATE'], 'x']]), ('shutdown', [['sock', 111, 'r']]), ('shutdown', [['unit']]),
+        ('reload', [['fault', F['SHUTDOWN_STATE'], 'x']]), ('version', [up, ['str', '4.3.0']]), ('version x', []),
+        ('tail a', [up, ['str', 'log\n']]), ('tail -0 a', [up, ['fault', F['BAD_NAME'], 'x']]),
+        ('tail -5 a stderr', [up, ['fault', F['NO_FILE'], 'x']]), ('maintail -9', [up, ['fault', F['FAILED'], 'x']]),
+        ('maintail', [['proto', 401, 'Unauthorized']]), ('foo', []), ('open ftp://x', []),
+    ]
+    n = 0
+    for line, script in pairs:
+        a = H.run_real(line, script)
+        b = H.run_main(line.split(), script)
+        n += 1
+        chk.dist('family:main')
+        ok = (b['escaped'] is None and a['escaped'] is None and b['msgs'] == a['msgs'] and b['calls'] == a['calls']
+              and type(b['exit_code']) is int and b['exit_code'] == a['status'])
+        if not ok:
+            _direct(chk, {'kind': 'one-shot mode: main() does not exit with the status / print the lines of '
+                                  'Controller.onecmd for the same command', 'line': line, 'script': script,
+                          'onecmd': {'printed': a['msgs'], 'exitstatus': a['status'], 'calls': a['calls']},
+                          'main': {'printed': b['msgs'], 'exit_code': b['exit_code'], 'calls': b['calls'],
+                                   'escaped': b['escaped']}})
+    # interactive mode (-i, commands read from stdin): same lines, exit status always 0
+    import io
+    import sys
+    from supervisor import supervisorctl
+    from supervisor.options import ClientOptions
+    for typed, script in [('start a', [up, info, up, ['fault', F['SPAWN_ERROR'], 'x']]),
+                          ('stop a b', [up, info, up, ['unit'], ['fault', F['BAD_NAME'], 'x']]),
+                          ('status zz', [['sock', 111, 'Connection refused'], ['sock', 111, 'Connection refused']])]:
+        srv = H.ScriptedServer(script)
+
+        class Opts(ClientOptions):
+            def getServerProxy(self):
+                return H._Proxy(srv)
+        out = H._Out()
+        old = (sys.stdout, sys.stdin)
+        code = 'no exit'
+        try:
+            sys.stdout, sys.stdin = out, io.StringIO(typed + '\n')
+            try:
+                supervisorctl.main(args=['-s', H.DEFAULT_URL, '-i'], options=Opts())
+            except SystemExit as e:
+                code = e.code
+        finally:
+            sys.stdout, sys.stdin = old
+        n_first = 2 if script[0] == up else 1
+        a = H.run_real('status', script[:n_first])
+        b = H.run_real(typed, script[n_first:])
+        got = [m for m in out.msgs if m != 'supervisor> ']
+        n += 1
+        chk.dist('family:main-interactive')
+        if code != 0 or got != a['msgs'] + b['msgs'] + ['\n']:
+            _direct(chk, {'kind': 'interactive mode: the shell does not print what onecmd prints for the same commands, or '
+                                  'does not exit with status 0', 'line': typed, 'script': script,
+                          'printed': out.msgs, 'exit_code': code, 'expected': a['msgs'] + b['msgs'] + ['\n']})
+    return n
 
 
 def build_cases(chk):
@@ -680,6 +906,8 @@ def build_cases(chk):
     gen_restart(cs, quick)
     gen_status(cs, quick)
     gen_single_call(cs, quick)
+    for line in MALFORMED:
+        cs.add(line, [up_ok()], 'malformed', responder=OkResponder())
     gen_tail(cs, quick)
     gen_fg(cs, quick)
     gen_more_forms(cs, quick)
@@ -704,6 +932,12 @@ def run(chk, only=None):
 
 
 MONITORS = {
+    'restart': ('restart_mon_case', 'restart_monitor_ok',
+                'restart: the lines, the exit status or the calls are not those of stop followed by start for the answers '
+                'the server gave (one result line per target and phase, worded after the answer for that target)'),
+    'status_lines': ('status_lines_case', 'status_lines_ok',
+                     'status: not exactly one ERROR line per name that matched nothing followed by one line per selected '
+                     'process carrying that process\'s namespec, state name and description'),
     'targets': ('mon_case', 'monitor_ok',
                 'the implementation violates the C20 specification monitor (exit status / never silent / one expected '
                 'result line per target, worded after the answer for THAT target)'),
@@ -723,14 +957,18 @@ def run_monitors(chk, wd, mons):
     import c20_proxy as H
     rejected = set()
     total = 0
-    for name in ('targets', 'status', 'tail'):
+    for name in ('targets', 'restart', 'status', 'status_lines', 'tail'):
         terms, metas = mons[name]
         ctype, fn, kind = MONITORS[name]
         total += len(terms)
         bad, errs = H.compare(vlib, IMPORTS, ctype, fn, terms, wd, 'mon_' + name, PREAMBLE)
         for e in errs:
             chk.violation({'kind': '%s monitor evaluation failed' % name, 'error': e}, nofail=True)
-        for i in bad[:5]:
+        seen_lines = set()
+        for i in bad:
+            if metas[i]['line'] in seen_lines or len(seen_lines) >= 5:
+                continue
+            seen_lines.add(metas[i]['line'])
             chk.violation(dict(metas[i], kind=kind, coq_case=terms[i][:3000]))
         rejected |= set(json.dumps([metas[i]['line'], metas[i]['script']]) for i in bad)
     return rejected, total
@@ -759,6 +997,7 @@ def _run(chk, wd, proved, only):
     else:
         cases, n_exh = build_cases(chk)
     terms, metas, mons, distinct = run_cases(chk, cases, wd)
+    n_main = judge_main(chk) if only is None else 0
     # 1. model against implementation
     import c20_proxy as H
     bad, errs = H.compare(vlib, IMPORTS, 'ctl_case', 'check_case', terms, wd, 'corr', PREAMBLE)
@@ -767,10 +1006,12 @@ def _run(chk, wd, proved, only):
     # 2. specification monitors on the implementation's own output
     rejected, n_mon = run_monitors(chk, wd, mons)
     shown = 0
+    shown_lines = set()
     for i in bad:
         m = metas[i]
-        if json.dumps([m['line'], m['script']]) in rejected:
-            continue    # already reported with a failing input
+        if json.dumps([m['line'], m['script']]) in rejected or m['line'] in shown_lines:
+            continue    # already reported with a failing input / same command line
+        shown_lines.add(m['line'])
         if shown < 5:
             chk.violation(dict(m, kind='model and implementation disagree',
                                coq_case=terms[i][:3000],
@@ -779,12 +1020,18 @@ def _run(chk, wd, proved, only):
                                            'than the implementation on this command line and server script'),
                           nofail=not (rejected or direct_failures(chk)))
             shown += 1
-    known = 0   # no known finding is left for C20 (822c50e, b349796, 4ba7a04)
+    known = getattr(chk, '_c20_known_names', 0)
+    if known:
+        chk.known_finding('C20-names-fault-aborts',
+                          'add / remove / pid with several names: a fault the action has no wording for (e.g. SHUTDOWN_STATE '
+                          'from removeProcessGroup or getProcessInfo) for one name ends the whole command with one "error: '
+                          '<class Fault>" line, exit 1; the remaining names are neither processed nor reported; %d such runs '
+                          'explored, all agree with the model' % known)
     if not proved:
         chk.violation({'kind': 'proof obligation no longer checks', 'detail': chk.proof_failure,
                        'file': 'coq/props/C20.v'}, nofail=not [v for v in chk.violations if not v[1]])
     cov = chk.coverage
-    cov['evaluations'] = len(terms) + n_mon
+    cov['evaluations'] = len(terms) + n_mon + n_main
     cov['traces_validated_against_impl'] = len(terms)
     cov['distinct_nontrivial'] = len([d for d in distinct if d[1] or d[2] != 0])
     cov['exhaustive'] = True
